@@ -217,7 +217,10 @@ def build_case(rng, api, nm, ndest, roots, subsets, nulls_ok=True, probe=None, g
     for p, f in leaves:
         if "cli" in subsets[p]:
             v = val(p, f, 30, "cli")
-            put(cli, p, marker(idx[p], f["kind"], 30) if v is None else v)  # an option is never given `null`
+            if v is None:  # an option is never given `null`
+                nulls.remove("cli")
+                v = marker(idx[p], f["kind"], 30)
+            put(cli, p, v)
     eff_nm = nm if nm is not None else ("WITHOUT_ROOT" if api == "parse" else "DEFAULT")
     unrooted = eff_nm == "WITHOUT_ROOT" and ndest == 1
     if unrooted:
